@@ -222,7 +222,12 @@ class Runner:
         """A returned label that carries the id of ANOTHER text of the alphabet and does not occur anywhere in this
         text's own source can only come from interference between texts / evaluators."""
         if o[0] == "ok" and o[1] == "str":
-            lab = o[2][1:-1]
+            try:
+                import ast
+
+                lab = ast.literal_eval(o[2])           # o[2] is a repr
+            except (ValueError, SyntaxError):
+                return
             head = lab.split(".", 1)[0]
             if head != tid and head in all_tids and lab not in self.sources.get(tid, ""):
                 raise Violation("foreign-label", f"{who} returned group {o[2]} which belongs to text {head}")
